@@ -6,5 +6,6 @@ pub mod c02;
 pub mod c04;
 pub mod c08;
 pub mod c15;
+pub mod c16;
 pub mod c17;
 pub mod scratch;
